@@ -384,6 +384,13 @@ func runC06(a vh.Args, o *vh.Oracle, r *vh.Result) error {
 		if c.Level == "cli" {
 			return c06CLIReplay(a, r, &c)
 		}
+		if c.Level == "cli-multi" {
+			var mc c06MultiCase
+			if err := readJSON(a.Replay, &mc); err != nil {
+				return err
+			}
+			return c06MultiCheck(a, r, &mc)
+		}
 		if c.Level == "cli-tarinput" {
 			var tc c06TarInCase
 			if err := readJSON(a.Replay, &tc); err != nil {
@@ -440,9 +447,9 @@ func runC06(a vh.Args, o *vh.Oracle, r *vh.Result) error {
 	rng := vh.NewRand(a.Seed)
 	thorough := a.Tier == "thorough"
 	ns := []int{1, 2, 4, 16}
-	inputs := 4
+	inputs := 3
 	exhaustiveLimit := 14
-	randomSets := 8
+	randomSets := 6
 	if thorough {
 		inputs = 16
 		exhaustiveLimit = 60
@@ -538,6 +545,9 @@ func runC06(a vh.Args, o *vh.Oracle, r *vh.Result) error {
 		return err
 	}
 	if err := c06TarInputs(a, r, rng); err != nil {
+		return err
+	}
+	if err := c06Multis(a, r, rng); err != nil {
 		return err
 	}
 	return c06CLI(a, r, rng)
